@@ -104,6 +104,38 @@ def block_scope_programs():
     return out
 
 
+def nested_literal_programs():
+    """unsuffixed literals NESTED inside an expression (under if / match / block / operators) that sits in a typed context
+    (tuple field, array element, repeat, struct field, enum payload, annotated let, argument, return value, assignment):
+    the expected type must reach the literals whatever lies between (round-9 seed C05-r9). None binds a literal with `let`."""
+    out = []
+    for T in ["u8", "i16", "u64"]:
+        one = "1"
+        exprs = [
+            f"x + (if c {{ 1 }} else {{ 2 }})", f"if c {{ 1 }} else {{ x }}", f"match x {{ 0 => 1, n => n }}",
+            f"x + {{ 1 }}", f"(x + 1) * (2 + x)", f"if c {{ x + 1 }} else {{ 2 }}",
+            f"match c {{ true => 1 + x, false => 2 }}", f"x + (match c {{ true => 1, false => 2 }})",
+            f"1 + (if c {{ 2 }} else {{ 3 }})", f"(if c {{ 1 }} else {{ 2 }}) + (if c {{ 3 }} else {{ 4 }})",
+            f"x & (7 | (if c {{ 8 }} else {{ 16 }}))", f"{{ {{ 1 }} + x }}", f"if c {{ if c {{ 1 }} else {{ 2 }} }} else {{ x }}",
+            f"(x + 1) << 2u8", f"x / (1 + 1)",
+        ]
+        if T.startswith("i"):
+            exprs += [f"-(1) + x", f"x + (if c {{ -1 }} else {{ 1 }})", f"-(if c {{ 1 }} else {{ 2 }})"]
+        for E in exprs:
+            out.append(f"pub fn main(x: {T}, c: bool) -> ({T}, bool) {{ ({E}, c) }}")
+            out.append(f"pub fn main(x: {T}, c: bool) -> [{T}; 2] {{ [{E}, x] }}")
+            out.append(f"pub fn main(x: {T}, c: bool) -> [{T}; 2] {{ [{E}; 2] }}")
+            out.append(f"pub fn main(x: {T}, c: bool) -> [({T}, bool); 2] {{ [({E}, c); 2] }}")
+            out.append(f"struct S {{ a: {T}, b: bool }}\npub fn main(x: {T}, c: bool) -> S {{ S {{ a: {E}, b: c }} }}")
+            out.append(f"enum En {{ A({T}, bool), B }}\npub fn main(x: {T}, c: bool) -> En {{ En::A({E}, c) }}")
+            out.append(f"pub fn main(x: {T}, c: bool) -> ({T}, bool) {{ let t: ({T}, bool) = ({E}, c); t }}")
+            out.append(f"fn f(t: ({T}, bool)) -> {T} {{ t.0 }}\npub fn main(x: {T}, c: bool) -> {T} {{ f(({E}, c)) }}")
+            out.append(f"pub fn main(x: {T}, c: bool) -> {T} {{ {E} }}")
+            out.append(f"pub fn main(x: {T}, c: bool) -> ({T}, bool) {{ let mut t: ({T}, bool) = (x, c); t = ({E}, c); t }}")
+            out.append(f"pub fn main(x: {T}, c: bool) -> (({T}, ({T}, bool)), bool) {{ ((x, ({E}, c)), c) }}")
+    return out
+
+
 def literal_operand_programs():
     """every operator with an unsuffixed literal operand (0, 1, 2, a larger one) on every integer type, in both
     operand positions: the literal's own width (32 bits when unsuffixed) must never leak into the result"""
@@ -139,12 +171,16 @@ def run(ck):
     sources += [("handlit%d" % i, s) for i, s in enumerate(lits)]
     sources += [("shape%d" % i, s) for i, s in enumerate(type_shape_programs())]
     sources += [("handscope%d-annotated" % i, s) for i, s in enumerate(block_scope_programs())]
+    nest = nested_literal_programs()
+    if quick:
+        nest = rng.sample(nest, 260)
+    sources = [("handnest%d" % i, s) for i, s in enumerate(nest)] + sources
     sources += [(nm + "-annotated", s) for nm, s in annotated]
     sources += [(nm + "-inferred", strip_annotations(rng, s)) for nm, s in annotated]
     sources += [(nm, s) for nm, s in PC.corpus_sources()[:60]]
     recs = PC.run_programs(ck, sources, "c05", ninputs=4)
     import checktie
-    checktie.check_tie_pass(ck, sources, "c05", max_programs=700 if quick else 12000)
+    checktie.check_tie_pass(ck, sources, "c05", max_programs=None if quick else 20000)
     import lowertie
     lowertie.tie_pass(ck, [x for x in sources if not x[0].startswith("handlit")], max_programs=200 if quick else 4000)
     # sizes according to the model (Sem.sizeof on the exported types)
@@ -165,6 +201,9 @@ def run(ck):
         if ast:
             sizejobs.append(f"(sizes z{i} {ast})")
     ms = run_jobs(MODELRUN, sizejobs, "c05.sz", timeout_per_job=1.0)
+    tv = getattr(ck, "checker_tie_verdicts", {}) or {}
+    for rec in recs:
+        rec["checker_tie"] = tv.get(rec["name"])
     stats = {"programs": len(recs), "accepted": 0, "rejected": 0, "crash": 0, "annotated_rejected_type": 0,
              "shape_checked": 0, "inferred_accepted": 0}
     for i, rec in enumerate(recs):
@@ -255,6 +294,17 @@ def known_key(rec):
         return "c05-zero-input-bits"
     if rec.get("wt") is False and UNSUFFIXED.search(re.sub(r"//[^\n]*", "", rec.get("src", ""))):
         # the checker returned a typed tree in which a value's static type and the width of the wires
-        # bound to it disagree (an unsuffixed literal typed after it was bound)
-        return "c05-literal-width-divergence"
+        # bound to it disagree (an unsuffixed literal typed after it was bound). The finding is a property of
+        # the checker AS MODELLED (Check/Infer.v reproduces it: C17_checker_soundness_refuted): it is the known
+        # finding only when the model of the unchanged checker returns the SAME typed program; a change to
+        # check.rs that creates new divergences makes model and code differ and is reported.
+        tie = rec.get("checker_tie")
+        if tie == "accepted: same typed program":
+            return "c05-literal-width-divergence"
+        if tie in (None, "outside-model", "model-out-of-fuel", "model-job-failed") and BOUND_LITERAL.search(rec.get("src", "")):
+            return "c05-literal-width-divergence"      # outside the checker model: the syntactic shape of the finding
     return None
+
+
+# a `let` / `for` binding whose right-hand side holds an unsuffixed number (the shape of the recorded finding)
+BOUND_LITERAL = re.compile(r"\b(?:let|for)\b[^;{]*?(?<![\w.])\d+(?![\w.])")
